@@ -31,12 +31,25 @@ def run(c: Check):
         i = msg.find("WARNING: DATA RACE")
         if i < 0:
             raise
-        block = msg[i:i + 5000]
-        # the two conflicting accesses: the innermost frames of each must be repository (or library)
-        # code, not the harness, for the race to be the code's
+        block = msg[i:i + 8000]
+        # the two conflicting accesses: walking each stack from the innermost frame, the first frame that
+        # lies in the tree under test decides whose access it is -- the repository's, or the harness's
+        # (zz_verif_* files are overlaid into the same directories).  Only a race between two accesses
+        # of the repository is the code's; anything else is a fault of the harness (exit 2).
+        repo_root = os.environ.get("VERIF_REPO", "/repo").rstrip("/") + "/"
         accs = block.split("Previous ")
-        tops = [[l.strip() for l in a.splitlines() if l.strip().startswith("/")][:3] for a in accs[:2]]
-        if any("zz_verif_" in f for t in tops for f in t):
+        owners, tops = [], []
+        for a in accs[:2]:
+            a = a.split("Goroutine ")[0]
+            frames = [l.strip() for l in a.splitlines() if l.strip().startswith("/")]
+            tops.append(frames[:3])
+            own = "none"
+            for f in frames:
+                if f.startswith(repo_root):
+                    own = "harness" if "zz_verif_" in f else "repo"
+                    break
+            owners.append(own)
+        if owners != ["repo", "repo"]:
             raise
         c.violation({"kind": "data-race", "where": (tops[0][0] if tops and tops[0] else "").split(" ")[0].replace(
             os.environ.get("VERIF_REPO", "/repo"), "")},
